@@ -26,6 +26,12 @@
         -> ok e1 <rows>:<digest> l2 … e3 … lt … et …
 
 The verdicts are the spec driver's (Spec.Cache.okWarm / okArgs / okLazy): equal digests, no alias.
+
+`inventory()` (bottom of the file) compares the tables with the real classes by introspection: every public method /
+classmethod / staticmethod with arguments, the constructor and the library's own dunder methods with arguments of the 13
+classes in KIND_CLASS must be called by some token or be listed in EXCLUDED_METHODS; what is neither goes to the evidence
+(`uncovered_methods`).  Kinds beyond gen_objects.KINDS: empty (EmptyLocation), variant, varcoll; compound recipes with a
+4th name component `deg` / `L<p|m|u><start>-<end>_...` have degenerate block lists (zero-length / nested / duplicate).
 """
 import hashlib
 import json
@@ -40,7 +46,8 @@ shims.install()
 from harness import gen_objects as G  # noqa: E402
 from harness import impl_history as H  # noqa: E402
 from harness.impl_history import (canon, ask, Ctx, call_table, introspected, snapshot, cold, make_recipe,  # noqa: E402
-                                  PARENT_CLS, _text)
+                                  PARENT_CLS, _text, LOC_KINDS, FEATURE_LIKE, VARIANT_TARGETS,
+                                  variant_probe_locations)
 
 import inscripta.biocantor  # noqa: E402,F401
 from inscripta.biocantor.gene.cds import CDSInterval  # noqa: E402
@@ -52,7 +59,8 @@ from inscripta.biocantor.gene.gene import GeneInterval  # noqa: E402
 from inscripta.biocantor.gene.interval import AbstractInterval  # noqa: E402
 from inscripta.biocantor.gene.transcript import TranscriptInterval  # noqa: E402
 from inscripta.biocantor.location.location import Location  # noqa: E402
-from inscripta.biocantor.location.location_impl import SingleInterval, CompoundInterval  # noqa: E402
+from inscripta.biocantor.location.location_impl import SingleInterval, CompoundInterval, EmptyLocation, _EmptyLocation  # noqa: E402,E501
+from inscripta.biocantor.gene.variants import VariantInterval, VariantIntervalCollection  # noqa: E402
 from inscripta.biocantor.location.strand import Strand  # noqa: E402
 from inscripta.biocantor.parent import Parent  # noqa: E402
 from inscripta.biocantor.sequence import Sequence  # noqa: E402
@@ -61,6 +69,11 @@ from inscripta.biocantor.io.bed.bed import RGB  # noqa: E402
 
 OBJ = (Location, Sequence, PARENT_CLS, AbstractInterval)
 INTERVAL_KINDS = ("cds", "transcript", "feature", "gene", "featcoll", "annot")
+IV_KINDS = INTERVAL_KINDS + ("variant", "varcoll")                  # every AbstractInterval kind
+# variants handed to incorporate_variants: (placement, type) x {VariantInterval, VariantIntervalCollection}
+VARIANT_GRID = (("before", "ins"), ("inside", "snv"), ("inside", "del"), ("inside", "ins"), ("aftermin", "ins"),
+                ("aftermin", "snv"), ("after", "del"))
+HELD_VARIANTS = (("inside", "snv", False), ("aftermin", "ins", True), ("after", "del", True))
 
 
 def dg(x):
@@ -93,13 +106,17 @@ class OpCtx(Ctx):
         # same bases, another id
         self.operands["altid"] = oid.parent() if recipe.mode in seq_modes else oid.chromosome_parent(True)
         self.operands["chromseq"] = recipe.chromosome_parent(True)
+        if recipe.kind in VARIANT_TARGETS:
+            # variants are operands too: snapshotted before / after, asked every question during warm-up
+            for pl, vt, coll in HELD_VARIANTS:
+                self.operands[f"var_{pl}_{vt}_{'vc' if coll else 'v'}"] = recipe.build_variants(pl, vt, coll)
 
 
 def op_table(recipe, obj):
     """operations that build new objects from the operand and from further arguments: {token: fn(obj, ctx)}"""
     k = recipe.kind
     t = {}
-    if k in ("single", "compound"):
+    if k in LOC_KINDS:
         for name in ("altbases", "altid", "chromseq"):
             t[f"reset_parent:{name}"] = (lambda name: lambda o, c: o.reset_parent(c.operands[name]))(name)
         for sym, st in G.STRANDS.items():
@@ -138,6 +155,24 @@ def op_table(recipe, obj):
         t["Parent:of"] = lambda o, c: Parent(sequence=o)
         t["SingleInterval:on"] = lambda o, c: SingleInterval(1, 4, Strand.MINUS, parent=o)
     else:
+        if k in VARIANT_TARGETS:
+            for pl, vt, coll in HELD_VARIANTS:
+                name = f"var_{pl}_{vt}_{'vc' if coll else 'v'}"
+                t[f"incorporate_variants:{pl}:{vt}:{'vc' if coll else 'v'}:held"] = \
+                    (lambda name: lambda o, c: o.incorporate_variants(c.operands[name]))(name)
+            # ... and the result of one incorporation is the operand of the next
+            t["incorporate_variants:inside:snv:v:held>incorporate_variants:after:del:vc:held"] = \
+                lambda o, c: o.incorporate_variants(c.operands["var_inside_snv_v"]).incorporate_variants(
+                    c.recipe.build_variants("after", "del", True)
+                    if not c.operands["var_inside_snv_v"].has_sequence else
+                    _variants_on(c.recipe, "after", "del", True, c.operands["var_inside_snv_v"].parent_with_alternative_sequence))
+        if k in ("variant", "varcoll"):
+            for name in ("before", "over", "after"):
+                t[f"lift_over_location:{name}>reset_parent:altbases"] = (lambda name: lambda o, c: o.lift_over_location(
+                    variant_probe_locations(c.recipe.data, c.recipe.chromosome_parent(False))[name]).reset_parent(
+                        c.operands["altbases"]))(name)
+            t["parent_with_alternative_sequence>SingleInterval:on"] = \
+                lambda o, c: SingleInterval(0, 3, Strand.PLUS, parent=o.parent_with_alternative_sequence)
         t["liftover:altbases"] = lambda o, c: o.liftover_to_parent_or_seq_chunk_parent(c.operands["altbases"])
         t["liftover:altid"] = lambda o, c: o.liftover_to_parent_or_seq_chunk_parent(c.operands["altid"])
         t["liftover:chromseq"] = lambda o, c: o.liftover_to_parent_or_seq_chunk_parent(c.operands["chromseq"])
@@ -152,6 +187,14 @@ def op_table(recipe, obj):
             t["from_location:own"] = lambda o, c: type(o).from_location(o.chunk_relative_location) \
                 if k != "cds" else type(o).from_location(o.chunk_relative_location, list(o.frames))
     return t
+
+
+def _variants_on(recipe, placement, vtype, as_collection, parent):
+    """the recipe's placed variant(s) on ANOTHER parent (the alternative genome produced by a first incorporation)"""
+    spec = recipe.variant_spec(placement, vtype)
+    if not as_collection:
+        return recipe._variant(spec, parent)
+    return recipe._varcoll({"vars": [spec], "name": "vc2", "id": None, "qualifiers": None}, parent)
 
 
 def full_table(recipe, obj):
@@ -325,11 +368,20 @@ def deep(v, d=0):
         rec = {"__obj__": type(v).__name__, "canon": canon(v), "hash": h, "str": _text(str(v))}
         if isinstance(v, AbstractInterval):
             rec["qualifiers"] = canon(getattr(v, "qualifiers", None))
-            rec["children"] = [[canon(ch.guid), canon(ch.qualifiers), hash(ch)] for ch in H._children(v)]
+            # the children with where they sit: location + the whole parent chain (ids, types, bases) + dictionary form
+            rec["children"] = [[canon(ch.guid), canon(ch.qualifiers), hash(ch), H._child_location(ch), _child_dict(ch)]
+                               for ch in H._children(v)]
         return rec
     if type(v).__module__.startswith("inscripta") and hasattr(v, "__dict__") and not isinstance(v, type):
         return {"__obj__": type(v).__name__, "vars": {k: deep(x, d + 1) for k, x in sorted(vars(v).items())}}
     return canon(v)
+
+
+def _child_dict(ch):
+    try:
+        return canon(ch.to_dict())
+    except Exception as e:  # noqa
+        return "exc:" + type(e).__name__
 
 
 MUT = (dict, list, set, bytearray)
@@ -493,7 +545,50 @@ def _ctor_entry(recipe):
             s, e = _spec_lists(spec)
             a = {"starts": s, "ends": e, "parent": parent}
             return a, lambda: CompoundInterval(a["starts"], a["ends"], G.STRANDS[spec["strand"]], parent=a["parent"])
+        if k == "variant":
+            spec = d["var"]
+            a = {"qualifiers": _quals_copy(spec.get("qualifiers")), "parent_or_seq_chunk_parent": parent}
+            return a, lambda: VariantInterval(
+                spec["start"], spec["end"], spec["sequence"], spec["variant_type"], phase_block=spec.get("phase_block"),
+                variant_name=spec.get("name"), variant_id=spec.get("id"), qualifiers=a["qualifiers"],
+                parent_or_seq_chunk_parent=a["parent_or_seq_chunk_parent"])
+        if k == "varcoll":
+            spec = d["vc"]
+            # the caller's list of variants is not in coordinate order
+            a = {"variant_intervals": [recipe._variant(v, parent) for v in spec["vars"]],
+                 "qualifiers": _quals_copy(spec.get("qualifiers")), "parent_or_seq_chunk_parent": parent}
+            return a, lambda: VariantIntervalCollection(
+                a["variant_intervals"], variant_collection_name=spec.get("name"), variant_collection_id=spec.get("id"),
+                sequence_name=recipe._seqname(), qualifiers=a["qualifiers"],
+                parent_or_seq_chunk_parent=a["parent_or_seq_chunk_parent"])
         raise KeyError(k)
+    return entry
+
+
+def _single_ctor_entry(recipe):
+    """SingleInterval(start, end, strand, parent): the parent is the caller's"""
+    def entry(o, c):
+        spec = recipe.data["loc"]
+        a = {"parent": recipe.parent()}
+        s, e = spec["blocks"][0][0], spec["blocks"][-1][1]
+        return a, lambda: SingleInterval(s, e, G.STRANDS[spec["strand"]], parent=a["parent"])
+    return entry
+
+
+def _annot_variants_ctor_entry(recipe):
+    """AnnotationCollection(..., variant_collections=[...]): children lists + a list of variant collections (the
+    constructor incorporates them into every overlapping gene / feature collection)"""
+    def entry(o, c):
+        spec = recipe.data["annot"]
+        parent = recipe.parent()
+        a = {"feature_collections": [recipe._fc(f, parent) for f in spec["fcs"]] or None,
+             "genes": [recipe._gene(g, parent) for g in spec["genes"]] or None,
+             "variant_collections": [recipe.build_variants("inside", "snv", True)],
+             "qualifiers": _quals_copy(spec.get("qualifiers"))}
+        return a, lambda: AnnotationCollection(
+            feature_collections=a["feature_collections"], genes=a["genes"], variant_collections=a["variant_collections"],
+            name=spec.get("name"), id=spec.get("id"), sequence_name=recipe._seqname(), qualifiers=a["qualifiers"],
+            parent_or_seq_chunk_parent=parent)
     return entry
 
 
@@ -508,9 +603,38 @@ def arg_table(recipe, obj):
             return a, lambda: call(o, c, a)
         t[name] = entry
 
-    if k in INTERVAL_KINDS or k in ("single", "compound"):
+    # comparison with another object of the same kind (every kind): neither side may change
+    simple("__eq__:twin", lambda o, c: {"other": c.recipe.build()}, lambda o, c, a: o == a["other"])
+    if k in LOC_KINDS and d.get("others"):
+        simple("__eq__:o0", lambda o, c: {"other": c.recipe.other_locations()[0]}, lambda o, c, a: o == a["other"])
+        simple("__lt__:o0", lambda o, c: {"other": c.recipe.other_locations()[0]}, lambda o, c, a: o < a["other"])
+        simple("compare:o0", lambda o, c: {"other": c.recipe.other_locations()[0]}, lambda o, c, a: o.compare(a["other"]))
+    if k == "annot":
+        simple("__setstate__:pickle", lambda o, c: {}, lambda o, c, a: H._pickle_roundtrip(o, c))
+    if k in IV_KINDS or k in ("single", "compound"):
         t["ctor"] = _ctor_entry(recipe)
-    if k in ("single", "compound"):
+    if k == "single":
+        t["ctor:single"] = _single_ctor_entry(recipe)
+    if k == "annot":
+        t["ctor:variants"] = _annot_variants_ctor_entry(recipe)
+    if k == "sequence":
+        simple("Sequence:ctor", lambda o, c: {"parent": o.parent},
+               lambda o, c, a: Sequence(str(o), o.alphabet, id=o.id, type=o.sequence_type, parent=a["parent"]))
+        simple("Parent:of", lambda o, c: {"sequence": o}, lambda o, c, a: Parent(sequence=a["sequence"]))
+    if k in LOC_KINDS:
+        for i in range(len(d.get("others", []))):
+            for m in ("has_overlap", "contains", "distance_to", "parent_to_relative_location"):
+                simple(f"{m}:o{i}", (lambda i: lambda o, c: {"other": c.recipe.other_locations()[i]})(i),
+                       (lambda m: lambda o, c, a: getattr(o, m)(a["other"]))(m))
+        simple("has_ancestor_sequence:chrom", lambda o, c: {"sequence": c.chrom_seq},
+               lambda o, c, a: o.has_ancestor_sequence(a["sequence"]))
+        simple("union:empty", lambda o, c: {"other": EmptyLocation()}, lambda o, c, a: o.union(a["other"]))
+        simple("intersection:empty", lambda o, c: {"other": EmptyLocation()}, lambda o, c, a: o.intersection(a["other"]))
+        simple("SingleInterval:on:parent-with-location",
+               lambda o, c: {"parent": Parent(id="pl", location=c.recipe.other_locations()[0].reset_parent(None))
+                             if d.get("others") else Parent(id="pl")},
+               lambda o, c, a: SingleInterval(0, 1, Strand.PLUS, parent=a["parent"]))
+    if k in LOC_KINDS:
         for i in range(len(d.get("others", []))):
             for m in ("union", "intersection", "minus", "union_preserve_overlaps", "location_relative_to"):
                 simple(f"{m}:o{i}", (lambda i: lambda o, c: {"other": c.recipe.other_locations()[i]})(i),
@@ -525,11 +649,100 @@ def arg_table(recipe, obj):
         simple("append:other", lambda o, c: {"other": Sequence("ACGTN", Alphabet.NT_EXTENDED_GAPPED)},
                lambda o, c, a: o.append(a["other"]))
     if k == "parent":
+        simple("equals_except_location:twin", lambda o, c: {"other": c.recipe.build()},
+               lambda o, c, a: o.equals_except_location(a["other"]))
+        simple("equals_except_location:twin:noseq", lambda o, c: {"other": c.recipe.build()},
+               lambda o, c, a: o.equals_except_location(a["other"], require_same_sequence=False))
+        simple("has_ancestor_sequence:chrom", lambda o, c: {"sequence": c.chrom_seq},
+               lambda o, c, a: o.has_ancestor_sequence(a["sequence"]))
         simple("reset_location:loc", lambda o, c: {"location": SingleInterval(1, 4, Strand.PLUS)},
                lambda o, c, a: o.reset_location(a["location"]))
         simple("Parent:ctor", lambda o, c: {"location": o.location, "sequence": o.sequence, "parent": o.parent},
                lambda o, c, a: Parent(id=o.id, sequence_type=o.sequence_type, strand=o.strand, **a))
-    if k in INTERVAL_KINDS:
+    if k in VARIANT_TARGETS:
+        # variants before / inside / after the members, as a VariantInterval and as a VariantIntervalCollection
+        for pl, vt in VARIANT_GRID:
+            for coll in (False, True):
+                simple(f"incorporate_variants:{pl}:{vt}:{'vc' if coll else 'v'}",
+                       (lambda pl, vt, coll: lambda o, c: {"variants": c.recipe.build_variants(pl, vt, coll)})(pl, vt, coll),
+                       lambda o, c, a: o.incorporate_variants(a["variants"]))
+    if k == "annot":
+        # the exported parent dictionary is the caller's (chromosome with id / chunk: no null entry; no parent: None)
+        simple("from_dict:dict:export_parent", lambda o, c: {"vals": o.to_dict(export_parent=True)},
+               lambda o, c, a: AnnotationCollection.from_dict(a["vals"]))
+        simple("from_dict:dict:export_parent:parent",
+               lambda o, c: {"vals": o.to_dict(export_parent=True), "parent_or_seq_chunk_parent": c.recipe.parent()},
+               lambda o, c, a: AnnotationCollection.from_dict(a["vals"], a["parent_or_seq_chunk_parent"]))
+        simple("to_dict:export_parent", lambda o, c: {}, lambda o, c, a: o.to_dict(export_parent=True))
+    if k in IV_KINDS:
+        mem = (recipe.members() or [[(2, 5)]])[0]
+        simple("initialize_location:lists",
+               lambda o, c: {"starts": [b[0] for b in mem], "ends": [b[1] for b in mem],
+                             "parent_or_seq_chunk_parent": c.recipe.parent()},
+               lambda o, c, a: type(o).initialize_location(a["starts"], a["ends"], Strand.PLUS, a["parent_or_seq_chunk_parent"]))
+        simple("liftover_location_to_seq_chunk_parent:chrom>chunk2",
+               lambda o, c: {"location": c.recipe.build().chromosome_location, "parent_or_seq_chunk_parent": c.chunk2()},
+               lambda o, c, a: type(o).liftover_location_to_seq_chunk_parent(a["location"], a["parent_or_seq_chunk_parent"]))
+        simple("liftover_location_to_seq_chunk_parent:own>own",
+               lambda o, c: {"location": c.recipe.build().chunk_relative_location,
+                             "parent_or_seq_chunk_parent": c.recipe.parent()},
+               lambda o, c, a: type(o).liftover_location_to_seq_chunk_parent(a["location"], a["parent_or_seq_chunk_parent"]))
+        simple("liftover:altbases", lambda o, c: {"parent_or_seq_chunk_parent": OpCtx(c.recipe, o).operands["altbases"]},
+               lambda o, c, a: o.liftover_to_parent_or_seq_chunk_parent(a["parent_or_seq_chunk_parent"]))
+        simple("from_dict:dict:chunk2", lambda o, c: {"vals": o.to_dict(), "parent_or_seq_chunk_parent": c.chunk2()},
+               lambda o, c, a: type(o).from_dict(a["vals"], a["parent_or_seq_chunk_parent"]))
+    if k in ("cds", "transcript", "feature"):
+        def loc_args(which):
+            def build(o, c):
+                tw = c.recipe.build()
+                a = {"location": tw.chromosome_location if which == "from_location" else tw.chunk_relative_location,
+                     "qualifiers": _quals_copy({kk: sorted(vv) for kk, vv in (o.qualifiers or {}).items()})}
+                if k == "cds":
+                    a["cds_frames"] = list(tw.frames)
+                elif k == "transcript":
+                    a["cds"] = tw.cds
+                else:
+                    a["feature_types"] = sorted(tw.feature_types) if tw.feature_types else None
+                return a
+            return build
+
+        def loc_call(which):
+            def call(o, c, a):
+                fn = getattr(type(o), which)
+                if k == "cds":
+                    return fn(a["location"], a["cds_frames"], qualifiers=a["qualifiers"], sequence_name=o.sequence_name)
+                if k == "transcript":
+                    return fn(a["location"], cds=a["cds"], qualifiers=a["qualifiers"], sequence_name=o.sequence_name)
+                return fn(a["location"], qualifiers=a["qualifiers"], feature_types=a["feature_types"],
+                          sequence_name=o.sequence_name)
+            return call
+        for which in ("from_location", "from_chunk_relative_location"):
+            simple(f"{which}:loc", loc_args(which), loc_call(which))
+    if k == "cds":
+        for sf in (0, 2):
+            simple(f"construct_frames_from_location:own:{sf}", lambda o, c: {"location": c.recipe.build().chunk_relative_location},
+                   (lambda sf: lambda o, c, a: CDSInterval.construct_frames_from_location(a["location"], CDSFrame(sf)))(sf))
+    if k in ("variant", "varcoll"):
+        for name in ("before", "over", "after", "within", "compound"):
+            simple(f"lift_over_location:{name}",
+                   (lambda name: lambda o, c: {"location": variant_probe_locations(
+                       c.recipe.data, c.recipe.chromosome_parent(False)).get(name, EmptyLocation())})(name),
+                   lambda o, c, a: o.lift_over_location(a["location"]))
+            simple(f"lift_over_location:{name}:own",
+                   (lambda name: lambda o, c: {"location": AbstractInterval.liftover_location_to_seq_chunk_parent(
+                       variant_probe_locations(c.recipe.data, None).get(name, EmptyLocation()), c.recipe.parent())})(name),
+                   lambda o, c, a: o.lift_over_location(a["location"]))
+        if k == "variant":
+            simple("export_qualifiers:pq", lambda o, c: {"parent_qualifiers": {"vnote": {"P"}, "zz": {"1", "2"}}},
+                   lambda o, c, a: o.export_qualifiers(a["parent_qualifiers"]))
+        simple("alternative_genomic_sequence", lambda o, c: {}, lambda o, c, a: o.alternative_genomic_sequence)
+        simple("parent_with_alternative_sequence", lambda o, c: {}, lambda o, c, a: o.parent_with_alternative_sequence)
+    if k == "varcoll":
+        simple("query_by_guids:list", lambda o, c: {"id_or_ids": [x.guid for x in o][::-1]},
+               lambda o, c, a: o.query_by_guids(a["id_or_ids"]))
+        simple("query_by_guids:list:first+unknown", lambda o, c: {"id_or_ids": [uuid.UUID(int=7), next(iter(o)).guid]},
+               lambda o, c, a: o.query_by_guids(a["id_or_ids"]))
+    if k in IV_KINDS:
         simple("to_dict:noarg", lambda o, c: {}, lambda o, c, a: o.to_dict())
         simple("to_dict:chunk", lambda o, c: {}, lambda o, c, a: o.to_dict(chromosome_relative_coordinates=False))
         simple("from_dict:dict", lambda o, c: {"vals": o.to_dict(), "parent_or_seq_chunk_parent": c.recipe.parent()},
@@ -564,12 +777,18 @@ def arg_table(recipe, obj):
         simple("to_gff:noarg", lambda o, c: {}, lambda o, c, a: o.to_gff())
         simple("query_by_guids:list", lambda o, c: {"id_or_ids": [x.guid for x in o]},
                lambda o, c, a: o.query_by_guids(a["id_or_ids"]))
+        # a list that is NOT in any canonical order (reversed children + an unknown identifier in the middle)
+        simple("query_by_guids:list:reversed",
+               lambda o, c: {"id_or_ids": [x.guid for x in o][::-1][:1] + [uuid.UUID(int=2 ** 127)] + [x.guid for x in o][::-1][1:]},
+               lambda o, c, a: o.query_by_guids(a["id_or_ids"]))
         simple("query_by_guids:list:first+unknown", lambda o, c: {"id_or_ids": [next(iter(o)).guid, uuid.UUID(int=7)]},
                lambda o, c, a: o.query_by_guids(a["id_or_ids"]))
     if k == "annot":
         simple("to_gff:noarg", lambda o, c: {}, lambda o, c, a: o.to_gff())
         simple("query_by_guids:list", lambda o, c: {"ids": [x.guid for x in o]}, lambda o, c, a: o.query_by_guids(a["ids"]))
-        for m, getter in (("query_by_interval_guids", lambda o: [y.guid for x in o for y in x]),
+        simple("query_by_guids:list:reversed", lambda o, c: {"ids": [x.guid for x in o][::-1] + [uuid.UUID(int=7)]},
+               lambda o, c, a: o.query_by_guids(a["ids"]))
+        for m, getter in (("query_by_interval_guids", lambda o: [y.guid for x in o for y in x][::-1]),
                           ("query_by_transcript_interval_guids", lambda o: [y.guid for x in o.genes for y in x]),
                           ("query_by_feature_interval_guids", lambda o: [y.guid for x in o.feature_collections for y in x]),
                           ("query_by_feature_identifiers", lambda o: ["G0", "fc5", "LT0", "T0", "F50", "feat50"])):
@@ -663,7 +882,8 @@ def run_args(kindmode, seed, call):
     return " ".join(out)
 
 
-CTOR_CALLS = ("ctor", "from_dict:dict", "from_dict:dict:noparent")
+CTOR_CALLS = ("ctor", "ctor:single", "ctor:variants", "from_dict:dict", "from_dict:dict:noparent", "from_dict:dict:chunk2",
+              "from_dict:dict:export_parent", "from_dict:dict:export_parent:parent")
 KEPT_LISTS = ("_genomic_starts", "_genomic_ends", "frames", "_cds_frames", "transcripts", "feature_intervals",
               "feature_collections", "genes", "variant_collections")
 
@@ -759,3 +979,104 @@ def run_line(t):
     if t[0] == "lazy":
         return run_lazy(t[1], int(t[2]), t[3])
     return "err! UnknownOp"
+
+
+# ----------------------------------------------------------------------------------------------
+# (d) inventory: which public methods WITH arguments are exercised by the tables (generated by introspection)
+
+KIND_CLASS = {"single": SingleInterval, "compound": CompoundInterval, "empty": _EmptyLocation, "parent": PARENT_CLS,
+              "sequence": Sequence, "cds": CDSInterval, "transcript": TranscriptInterval, "feature": FeatureInterval,
+              "gene": GeneInterval, "featcoll": FeatureIntervalCollection, "annot": AnnotationCollection,
+              "variant": VariantInterval, "varcoll": VariantIntervalCollection}
+# tokens whose first segment is not the method's name
+TOKEN_ALIASES = {"liftover": "liftover_to_parent_or_seq_chunk_parent", "ctor": "__init__"}
+# Methods deliberately NOT in arg_table / op_table / call_table: {(class name or "*", method or rule): reason}.
+# Everything else that introspection finds (public methods / classmethods / staticmethods with >= 1 argument, memoised ones
+# included, the constructor, and the dunder methods with arguments the library defines itself) and that no table mentions
+# is reported as `uncovered_methods` in the evidence (the check does not fail on it).
+EXCLUDED_METHODS = {
+    ("*", "_<private>"): "names with a leading underscore are not public API (38 of them take arguments).  The in-place ones "
+                         "(_reset_parent, _liftover_this_location_to_seq_chunk_parent, _import_qualifiers_from_list, "
+                         "_initialize_location) are the documented construction-time mutators: their effect on CALLER-held "
+                         "objects is observed through the public constructors / from_dict / incorporate_variants / "
+                         "query_by_* entries that run them.  Exception: `_merge_qualifiers` IS in the tables (4 argument shapes)",
+    ("*", "cache_clear / cache_info"): "cache management of the memoised methods: used as history fillers (X), not questions",
+    ("_EmptyLocation", "__init__"): "singleton without constructor arguments (EmptyLocation() is the receiver of the `empty` "
+                                    "kind and an operand of union:empty / intersection:empty / lift_over_location:empty)",
+    ("VariantInterval", "to_vcf"): "no arguments; raises NotImplementedError unconditionally (asked in the histories).  "
+                                   "to_bed12 / to_gff of the variant classes raise unconditionally too and are in the tables",
+}
+
+
+def arg_taking_methods(cls):
+    """{name: (how, [parameter names])}: every public method / classmethod / staticmethod (memoised ones included) of the
+    class that takes at least one argument besides self / cls, + the constructor"""
+    import inspect
+    out = {}
+    for n in sorted(dir(cls)):
+        st = inspect.getattr_static(cls, n)
+        tn = type(st).__name__
+        if n.startswith("__") and n.endswith("__") and n != "__init__":
+            # dunder methods with arguments that the library defines itself (__eq__, __lt__, __getitem__, __setstate__)
+            if tn != "function" or not (getattr(st, "__module__", "") or "").startswith("inscripta"):
+                continue
+        elif n.startswith("_") and n != "__init__":
+            continue
+        if tn in ("staticmethod", "classmethod"):
+            fn = st.__func__
+        elif tn == "function":
+            fn = st
+        elif tn == "_MethodRope":                   # methodtools.lru_cache on a method
+            fn = inspect.unwrap(getattr(cls, n))
+        else:
+            continue                                # properties, memoised properties, data
+        try:
+            ps = [p.name for p in inspect.signature(fn).parameters.values()
+                  if p.kind not in (p.VAR_POSITIONAL, p.VAR_KEYWORD)]
+        except (TypeError, ValueError):
+            ps = ["?"]
+        if tn != "staticmethod":
+            ps = ps[1:]
+        if ps:
+            out[n] = (tn, ps)
+    return out
+
+
+def covered_names(kind, modes=("chrom", "chunk")):
+    """method names of the kind's class that some token of arg_table / op_table / call_table calls on the object (or on
+    its class); tokens with a child prefix (`cds.`, `cds0.`, `child0.`) belong to the child's class and are not counted"""
+    cls = KIND_CLASS[kind].__name__
+    where = {}
+    for mode in modes:
+        r = G.make(kind, random.Random(0), mode, "e")
+        o = r.build()
+        for leg, table in (("args", arg_table(r, o)), ("warm", op_table(r, o)), ("hist+warm", call_table(r, o))):
+            for tok in table:
+                for part in tok.split(">"):
+                    head = part.split(":")[0]
+                    if "." in head:
+                        continue
+                    name = "__init__" if head == cls or (cls == "Parent" and head == "Parent") else TOKEN_ALIASES.get(head, head)
+                    where.setdefault(name, set()).add(leg)
+    return where
+
+
+def inventory():
+    per_class, uncovered, excluded = {}, [], {}
+    for kind, cls in KIND_CLASS.items():
+        methods = arg_taking_methods(cls)
+        cov = covered_names(kind)
+        rec = {"arg_taking_public_methods": len(methods), "covered": 0, "in_args_leg": 0, "excluded": [], "uncovered": []}
+        for n in methods:
+            why = EXCLUDED_METHODS.get((cls.__name__, n)) or EXCLUDED_METHODS.get(("*", n))
+            if n in cov:
+                rec["covered"] += 1
+                rec["in_args_leg"] += "args" in cov[n]
+            elif why:
+                rec["excluded"].append(n)
+                excluded[f"{cls.__name__}.{n}"] = why
+            else:
+                rec["uncovered"].append(n)
+                uncovered.append(f"{cls.__name__}.{n}({', '.join(methods[n][1])})")
+        per_class[cls.__name__] = rec
+    return {"per_class": per_class, "uncovered_methods": uncovered, "excluded_methods": excluded}
